@@ -45,6 +45,7 @@ let qwrap parse t = match t with ["Q"; v] -> Inr (ni v) | _ -> Inl (parse t)
 let variant = ref repaired
 let um_set0 = ref true
 let uw_canon = ref true
+let fspec = ref false
 let rec emit_ms m s = match m, s with
   | [], _ -> ()
   | x :: m', [] -> zline "M" x; print_string "S -\n"; emit_ms m' []
@@ -58,17 +59,17 @@ let run_case line =
     (match hd with
      | ["D"; lk; n] ->
        let hs = lk <> "none" in let ops = List.map (qwrap parse_dop) ops in
-       emit_ms (d_trace hs !variant (ni n) ops) (d_spec_trace hs (ni n) ops)
+       emit_ms (d_trace hs !variant (ni n) ops) (if !fspec then d_fspec_trace hs (ni n) ops else d_spec_trace hs (ni n) ops)
      | ["U"; lk; n] ->
        let hs = lk <> "none" in let ops = List.map (qwrap parse_uop) ops in
-       emit_ms (u_trace_z hs !variant (ni n) ops) (u_spec_trace hs (ni n) ops)
-     | ["DM"; _; n] -> let ops = List.map (qwrap parse_mop) ops in emit_ms (dm_trace_z !variant (ni n) ops) (m_spec_trace false (ni n) ops)
-     | ["UM"; _; n] -> let ops = List.map (qwrap parse_mop) ops in emit_ms (um_trace_z !variant !um_set0 (ni n) ops) (m_spec_trace true (ni n) ops)
-     | ["DW"; _; n] -> let ops = List.map (qwrap parse_wop) ops in emit_ms (dw_trace_z !variant (ni n) ops) (w_spec_trace false (ni n) ops)
-     | ["UW"; _; n] -> let ops = List.map (qwrap parse_wop) ops in emit_ms (uw_trace_z !variant !uw_canon (ni n) ops) (w_spec_trace true (ni n) ops)
+       emit_ms (u_trace_z hs !variant (ni n) ops) (if !fspec then u_fspec_trace hs (ni n) ops else u_spec_trace hs (ni n) ops)
+     | ["DM"; _; n] -> let ops = List.map (qwrap parse_mop) ops in emit_ms (dm_trace_z !variant (ni n) ops) (if !fspec then m_fspec_trace false (ni n) ops else m_spec_trace false (ni n) ops)
+     | ["UM"; _; n] -> let ops = List.map (qwrap parse_mop) ops in emit_ms (um_trace_z !variant !um_set0 (ni n) ops) (if !fspec then m_fspec_trace true (ni n) ops else m_spec_trace true (ni n) ops)
+     | ["DW"; _; n] -> let ops = List.map (qwrap parse_wop) ops in emit_ms (dw_trace_z !variant (ni n) ops) (if !fspec then w_fspec_trace false (ni n) ops else w_spec_trace false (ni n) ops)
+     | ["UW"; _; n] -> let ops = List.map (qwrap parse_wop) ops in emit_ms (uw_trace_z !variant !uw_canon (ni n) ops) (if !fspec then w_fspec_trace true (ni n) ops else w_spec_trace true (ni n) ops)
      | _ -> failwith ("unknown class in: " ^ line))
 let () =
-  Array.iter (fun a -> if a = "pinned" then (variant := pinned; um_set0 := false; uw_canon := false)) Sys.argv;
+  Array.iter (fun a -> if a = "pinned" then (variant := pinned; um_set0 := false; uw_canon := false); if a = "fspec" then fspec := true) Sys.argv;
   (try while true do
      let line = input_line stdin in
      if String.length line > 5 && String.sub line 0 5 = "CASE " then begin
